@@ -233,3 +233,21 @@ def return_exprs(fdef):
 def norm(node):
     """Normalised text of an expression (for argument-role comparison)."""
     return ast.unparse(node)
+
+
+def bind_values(fdef, args, kwargs, skip_first=False):
+    """Bind evaluated positional / keyword argument *values* to the parameter
+    names of ``fdef``; a call Python would reject raises Undecided."""
+    a = fdef.args
+    params = [p.arg for p in a.posonlyargs + a.args]
+    if skip_first and params:
+        params = params[1:]
+    kwonly = [p.arg for p in a.kwonlyargs]
+    if len(args) > len(params):
+        raise Undecided('too many positional arguments for %s' % fdef.name)
+    out = dict(zip(params, args))
+    for k, v in kwargs.items():
+        if k in out or k not in params + kwonly:
+            raise Undecided('bad keyword %s for %s' % (k, fdef.name))
+        out[k] = v
+    return out
